@@ -38,6 +38,7 @@ EXPLANATION = (
     "compression, so find() cannot cycle; (CENSUS) all "
     "panic-capable sites of the four crates are enumerated and classified (contract / guarded / unreviewed) as evidence."
     " (K10 absent=>Err) solve() returns an error when no global `start` exists, which is what keeps the lowering's `.find(..).unwrap()` from meeting None."
+    " (BACKTRACK) no parsing function re-parses, from the same cursor, input whose first parse may already have contained the enclosing construct (one known finding: the assignment probe of statement(), exponential in the nesting depth of call statements)."
     " (VEC-BOUNDS) the same interpretation tracks the least length of vectors the parser builds and the flags derived from token tests: a `remove(0)` is only reached with an element to remove."
     ' (UNSIGNED-SUB) every unsigned subtraction is listed with the invariant that keeps it from underflowing, or saturates; (GUARD guard-key-is-stable / output-size-bounded) a visited-set guard is not defeated by nodes created during the recursion, and unfolding the type graph into a tree is bounded (two known findings).'
     " (PROGRESS) by abstract interpretation of sylt-parser (cursor position relative to the loop head: same / further / strictly further; what is known about the token under the cursor; summaries per parsing function as a greatest fixed point): every loop driven by a token cursor advances it strictly on every path back to its head - at the latest after two more iterations, which is how the error-recovery loops of module() and block() work - and is left when the cursor is at the end of the input; callbacks handed to the generic list parser never move the cursor backwards."
@@ -155,6 +156,40 @@ def parser_progress(F, rep):
                "`%s` can be reached with the vector too short - the parser panics (`removal index should be < len`); path: %s"
                % (what, " | ".join(e["trails"]) or "?"), e["where"])
     rep.floor("VEC-BOUNDS", "fixed-position removals from vectors the parser builds", ns, 2)
+    # (BACKTRACK) a sub-parse that is started twice from the very same cursor: harmless when the first attempt is shallow, but
+    # when the first attempt can contain the enclosing construct again (a call whose argument is a function literal whose body
+    # holds statements ..) and the second attempt runs after the first one got that far, every nesting level doubles the work
+    graph = A.call_graph()
+
+    def reaches(a, b):
+        seen, todo = set(), [a]
+        while todo:
+            q = todo.pop()
+            if q == b:
+                return True
+            if q not in seen:
+                seen.add(q)
+                todo += list(graph.get(q, ()))
+        return False
+    nb = 0
+    for (fnp, c0, c1), (where, node) in sorted(A.reparse.items(), key=lambda kv: (kv[0][0], kv[0][1], kv[0][2])):
+        nb += 1
+        fn = F.fns.get(fnp)
+        outcome = A.retry_outcome(fn, c0, node) if fn else "any"
+        d_ok, d_err = A.deepness.get(c0, (False, False))
+        nests = reaches(c0, fnp)
+        risky = nests and ((outcome in ("ok", "any") and d_ok) or (outcome in ("err", "any") and d_err))
+        rep.ob("BACKTRACK", "%s|%s+%s" % (last(fnp, 2) if fnp.count("::") > 1 else last(fnp), last(c0), last(c1)), not risky,
+               ("%s() parses from the same cursor twice (%s, then %s after %s): the first attempt %s" % (
+                   last(fnp), last(c0), last(c1), {"ok": "it succeeded", "err": "it failed", "any": "either outcome"}[outcome],
+                   "cannot contain a nested %s" % last(fnp) if not nests else
+                   "only fails before it has parsed anything nested" if outcome == "err" else "is shallow")) if not risky else
+               "%s() parses from the same cursor twice: %s(ctx) and then, after %s, %s(ctx) again over the same tokens. The first "
+               "parse can contain a nested %s (an argument that is a function literal with statements in its body), which does the "
+               "same: the work doubles with every nesting level - `f(fn do f(fn do .. end) end)` nested 30 deep takes hours" % (
+                   last(fnp), last(c0), {"ok": "it succeeded", "err": "it failed", "any": "either outcome"}[outcome], last(c1), last(fnp)),
+               where)
+    rep.floor("BACKTRACK", "repeated sub-parses from one cursor", nb, 4)
     rep.info("PROGRESS summaries (cursor returned relative to the argument): " + "; ".join(
         "%s %s%s" % (last(p), progress.show(sm["ret"]), "" if sm["eof_ok"] else " [no Ok at EOF]") for p, sm in sorted(A.summaries.items())))
 
